@@ -119,6 +119,13 @@ class Ctx:
             if cfg == "boost":
                 flags = ["-O1", "-DSYMENGINE_VERIF"]
                 libs = []
+            if cfg == "mpfr":
+                libs = ["-lmpfr", "-lgmp"]
+            if cfg == "llvm":
+                flags = ["-O1", "-DSYMENGINE_VERIF"]
+                rc_, out_ = sh("/usr/lib/llvm-14/bin/llvm-config --ldflags --libs --system-libs")
+                libs = ["-lgmp"] + out_.split()
+                std = "c++14"
             cmd = ["g++", "-std=" + std, "-w"] + flags + (extra or []) + [
                 "-I" + REPO, "-I" + b, "-I" + os.path.join(ROOT, "harness"), src, lib] + libs + ["-o", exe + ".tmp"]
             rc, out = sh(cmd, timeout=1200)
